@@ -135,7 +135,7 @@ def run(ctx):
         "plain": [(2, [[A, R, A], [A, RL, A]], 2), (2, [[A, A, R, R], [A, R]], 2), (1, [[A, R, A], [A, R]], 3),
                   (2, [[A, R], [A, R], [A, RL]], 2), (2, [[A, A], [A, A, R, A]], 2)],
         "robust": [(2, [[A, R, A], [A, RL, A]], 2), (2, [[A, A], [A, R], ["rec0"]], 2), (1, [[A, RL], [A, R]], 3),
-                   (2, [[A], [A, RL], ["recl0", A]], 2)],
+                   (2, [[A], [A, RL], ["recl0", A]], 2), (2, [[A], ["rec0"], ["rec0", A]], 2)],
         "pool": [(2, [[A, R, A], [A, A, R]], 2), (1, [[A, R, A], [A, R]], 3)],
     }
     if not q:
